@@ -63,6 +63,7 @@ class Contract:
         self.use_abstract = set()  # callee method names resolved to the abstract contract of the base class
         self.assumes = []          # (text, expr): assumed at entry, listed in the evidence (never silently)
         self.for_class_obj = None
+        self.assumes_at = []       # (statement text, why, expr): assumed just before that statement; listed
         self.stmt_hints = []       # (statement text, [lemma uses]) applied just before that statement
         self.abstract = False      # assumed contract of an abstract receiver (proved per subclass)
         self.label = None
@@ -428,8 +429,12 @@ class Registry:
                     uses = []
                     checks = []
                     sets = []
+                    assumes_at = []
                     for kw in call.keywords:
-                        if kw.arg == 'use':
+                        if kw.arg == 'assume':
+                            # at_stmt("<stmt>", assume=("why", expr)): assumed just before the statement, listed
+                            assumes_at = [(ast.literal_eval(kw.value.elts[0]), kw.value.elts[1])]
+                        elif kw.arg == 'use':
                             uses = kw.value.elts if isinstance(kw.value, (ast.List, ast.Tuple)) else [kw.value]
                         elif kw.arg == 'check':
                             checks = kw.value.elts if isinstance(kw.value, (ast.List, ast.Tuple)) else [kw.value]
@@ -437,6 +442,8 @@ class Registry:
                             sets = [(k2.arg, k2.value) for k2 in kw.value.keywords]      # set=dict(ghost=expr)
                     key_ = text if text.startswith('@') else ast.unparse(ast.parse(text).body[0])
                     c.stmt_hints.append((key_, uses, checks))
+                    for why_, e_ in assumes_at:
+                        c.assumes_at.append((key_, why_, e_))
                     if sets:
                         c.ghost_updates.append((key_, sets))
                 elif n == 'loop':
